@@ -311,3 +311,54 @@ Qed.
 Theorem df_is_derivative_repaired : forall data To target t v, df R numR false data To t = Ok v ->
   is_derive (fR data To target) t v.
 Proof. intros data To target t v H. rewrite (model_df false _ _ _ _ H). apply fR_is_derive. Qed.
+
+(* ------------------------------------------------------------------ Newton from the left of the root
+   f is convex and decreasing (non-negative activities, positive decay constants); a Newton step with
+   the TRUE derivative from a point left of the root moves right and does not pass the root.  (The
+   initial guess of decay_time is left of the root: there one product alone equals the target.) *)
+Definition physical_data (data : list (R * R)) : Prop := List.Forall (fun p : R * R => 0 <= fst p /\ 0 < snd p) data.
+
+Lemma sumR_convex : forall data To x r, physical_data data ->
+  sumR data To x + derR data To x * (r - x) <= sumR data To r.
+Proof.
+  induction data as [|[Ia La] d IH]; intros To x r Hp; simpl; [lra|].
+  inversion Hp as [|? ? [Ha Hl] Hd]; subst. simpl in Ha, Hl. specialize (IH To x r Hd).
+  assert (E : exp (- (La * (r - To))) = exp (- (La * (x - To))) * exp (- (La * (r - x)))).
+  { rewrite <- exp_plus. f_equal. ring. }
+  pose proof (exp_ineq1_le (- (La * (r - x)))) as Hc.
+  pose proof (exp_pos (- (La * (x - To)))) as Hpos.
+  rewrite E.
+  set (ex := exp (- (La * (x - To)))) in *. set (er := exp (- (La * (r - x)))) in *.
+  assert (H1 : Ia * ex * (1 + - (La * (r - x))) <= Ia * ex * er).
+  { apply Rmult_le_compat_l; [apply Rmult_le_pos; lra|exact Hc]. }
+  lra.
+Qed.
+
+Lemma derR_nonpos : forall data To x, physical_data data -> derR data To x <= 0.
+Proof.
+  induction data as [|[Ia La] d IH]; intros To x Hp; simpl; [lra|].
+  inversion Hp as [|? ? [Ha Hl] Hd]; subst. simpl in Ha, Hl. specialize (IH To x Hd).
+  pose proof (exp_pos (- (La * (x - To)))).
+  assert (0 <= La * Ia * exp (- (La * (x - To)))) by (apply Rmult_le_pos; [apply Rmult_le_pos; lra|lra]).
+  lra.
+Qed.
+
+Theorem newton_left_monotone : forall data To target x r, physical_data data ->
+  fR data To target r = 0 -> 0 <= fR data To target x -> derR data To x < 0 ->
+  let x' := x - fR data To target x / derR data To x in
+  x <= x' <= r.
+Proof.
+  intros data To target x r Hp Hr Hx Hd x'. subst x'.
+  pose proof (sumR_convex data To x r Hp) as Hc. unfold fR in *.
+  assert (Hi : / derR data To x < 0) by (apply Rinv_lt_0_compat; assumption).
+  split.
+  - assert (0 <= - ((sumR data To x - target) / derR data To x)); [|lra].
+    replace (- ((sumR data To x - target) / derR data To x)) with ((sumR data To x - target) * - / derR data To x)
+      by (field; lra).
+    apply Rmult_le_pos; lra.
+  - assert (H : (sumR data To x - target) + derR data To x * (r - x) <= 0) by lra.
+    assert (H' : - ((sumR data To x - target) / derR data To x) <= r - x); [|lra].
+    apply (Rmult_le_reg_r (- derR data To x)); [lra|].
+    replace (- ((sumR data To x - target) / derR data To x) * - derR data To x) with (sumR data To x - target) by (field; lra).
+    lra.
+Qed.
